@@ -332,6 +332,11 @@ def tapPoint (even : Bool) (P : G) : G := if even then P else O.gneg P
 def deriveShare (s a : F) : F := O.add s a
 /-- `P.Add(adjust.ActOnBase())` (every public table entry and the group key) -/
 def derivePublic (P : G) (a : F) : G := O.gadd P (actBase O a)
+/-- `TaprootConfig.Derive` (frost/keygen/config.go): the share gets the tweak; it is negated when the NEW key
+    `LiftX(PublicKey).Add(adjustG)` has odd y (`even` is the value of its `HasEvenY()`) -/
+def tapDeriveShare (even : Bool) (s a : F) : F := tapScalar O even (deriveShare O s a)
+/-- the same for every verification share (and, up to the x-only export, for the key itself) -/
+def tapDerivePublic (even : Bool) (P : G) (a : F) : G := tapPoint O even (derivePublic O P a)
 /-- a derivation path: the tweaks are applied one after the other -/
 def deriveSharePath (s : F) (path : List F) : F := path.foldl (deriveShare O) s
 def derivePublicPath (P : G) (path : List F) : G := path.foldl (derivePublic O) P
